@@ -64,6 +64,32 @@ def result_of(p, call):
     return (abstract, [(c, pos) for pos, c, _ in p.errors], p.documentEncoding)
 
 
+CONFIG_CODE = r'''
+def config_result(config, docs):
+    import html5lib
+    import xml.etree.ElementTree as ET
+    from xml.dom import minidom
+    tb, kw, nshtml = config
+    kw = dict(kw)
+    if "implementation" in kw:
+        kw["implementation"] = {"ET": ET, "minidom": minidom}[kw["implementation"]]
+    def dump(e):
+        if not isinstance(e.tag, str):
+            return ("special", e.text, e.tail)
+        return (e.tag, sorted(e.attrib.items()), e.text, e.tail, [dump(c) for c in e])
+    out = []
+    for d in docs:
+        p = html5lib.HTMLParser(tree=html5lib.getTreeBuilder(tb, **kw), namespaceHTMLElements=nshtml)
+        t = p.parse(d)
+        shape = t.toxml() if tb == "dom" else dump(t)
+        wkw = {"implementation": kw["implementation"]} if "implementation" in kw and tb == "etree" else {}
+        toks = [(k.get("type"), k.get("name"), k.get("namespace"), sorted((k.get("data") or {}).items(), key=repr) if isinstance(k.get("data"), dict) else k.get("data"))
+                for k in html5lib.getTreeWalker(tb, **wkw)(t)]
+        out.append((shape, toks))
+    return out
+'''
+
+
 def fresh(tb):
     import html5lib
     return html5lib.HTMLParser(tree=html5lib.getTreeBuilder(tb))
@@ -283,6 +309,39 @@ def run(ctx):
             if total is not None and k >= total:
                 break
             k += 1
+    # construction-time configurations: the factories behind getTreeBuilder / getTreeWalker cache the modules they build in
+    # process-wide dicts.  Every configuration is asked for in this (warm) process after the others have been used, in several
+    # orders, and must give what a fresh interpreter that only ever asks for that one configuration gives.
+    cfg_docs = ["<!DOCTYPE html><!--c--><title>t</title><p a=1>hello<svg><a xlink:href=x>y</a></svg><br>", "<!--x--><table><tr><td>c</table>z"]
+    configs = [(tb, kw, nshtml) for tb, kw in (("etree", {}), ("etree", {"fullTree": False}), ("etree", {"fullTree": True}),
+                                               ("etree", {"implementation": "ET"}), ("etree", {"implementation": "ET", "fullTree": True}),
+                                               ("etree", {"implementation": "ET", "fullTree": False}),
+                                               ("dom", {}), ("dom", {"implementation": "minidom"}))
+               for nshtml in (True, False)]
+    want = {}
+    for ci, c in enumerate(configs):
+        sub = subprocess.run([sys.executable, "-c", CONFIG_CODE + "\nimport sys\nsys.stdout.write(repr(config_result(%r, %r)))" % (c, cfg_docs)],
+                             capture_output=True, env={"PYTHONPATH": gen.REPO, "PYTHONWARNINGS": "ignore"})
+        want[ci] = sub.stdout.decode("utf-8", "replace") if sub.returncode == 0 else "subprocess failed: " + sub.stderr.decode("utf-8", "replace")[-300:]
+    g = {}
+    exec(CONFIG_CODE, g)
+    orders = [list(range(len(configs))), list(reversed(range(len(configs))))]
+    for _ in range(ctx.scale(2, 10)):
+        o = list(range(len(configs)))
+        rng.shuffle(o)
+        orders.append(o)
+    reported = set()
+    for o in orders:
+        for ci in o + o:        # second pass: every configuration again, now after all the others
+            got = repr(g["config_result"](configs[ci], cfg_docs))
+            ctx.case("configuration-history", "%r|%d" % (o, ci), nontrivial=True)
+            ctx.count("configuration-history")
+            if got != want[ci] and ci not in reported:
+                reported.add(ci)
+                ctx.fail("configuration-cache-differs", "an object built for one configuration after other configurations were used in "
+                         "the same interpreter returns something else than in a fresh interpreter",
+                         {"configuration": repr(configs[ci]), "requested_before": repr([configs[j] for j in o[:o.index(ci)]])[:600],
+                          "documents": cfg_docs, "warm": got[:500], "fresh_interpreter": want[ci][:500]})
     if ctx.tier == "thorough":
         # fresh interpreter for the process-wide caches
         code = ("import sys,html5lib;from xml.etree import ElementTree as E;"
